@@ -116,6 +116,14 @@ class Verdicts:
         self.violations.append(c)
         return False
 
+    def vacuous(self, msg: str) -> None:
+        """a witness counter the check needs is zero: a failure of the machinery - unless violations were found (a library
+        that crashes early keeps the replay from reaching the witnesses: that run is a FAIL, not a machinery failure)"""
+        if not self.violations:
+            from .tlc import MachineryError
+            raise MachineryError(msg)
+        self.notes.append("witness counters incomplete because of the violations: " + msg[:300])
+
     def diverge(self, what: str, case: Dict[str, Any]) -> None:
         if len(self.divergences) < 50:
             self.divergences.append({"what": what, **case})
